@@ -1,7 +1,82 @@
-//! C01 — not built yet.
-use vcore::Ctx;
+//! C01 — execution results of derive-built schemas equal the specification's execution algorithm.
+use crate::execcmp::*;
+use vcore::{Case, Ctx, Src};
+use vgql::gentyped::*;
+use vgql::print::print_plain;
+use vgql::refexec::{execute, Quirks};
+use vgql::sch::Sch;
+use vgql::world::*;
+use vschemas::rt::Rt;
+use vschemas::z::{build_z, z_sch, ZSchema};
 
-pub fn run(_ctx: &mut Ctx) {
-    eprintln!("C01: check not built yet");
-    std::process::exit(2);
+pub fn classify(mut c: Case, st: &DocStats) -> Case {
+    let nontrivial = st.union_cond_in_object + st.interface_cond + st.object_cond > 0 || st.repeated_keys > 0 || st.directive_var > 0;
+    c.nontrivial = c.nontrivial || nontrivial;
+    c.class_if(st.union_cond_in_object > 0, "union-condition-in-object")
+        .class_if(st.interface_cond > 0, "interface-condition")
+        .class_if(st.nested_fragments >= 2, "nested-fragments>=2")
+        .class_if(st.named_fragments > 0, "named-fragment")
+        .class_if(st.directive_var_defaulted > 0, "defaulted-directive-variable")
+        .class_if(st.directive_var > 0, "directive-variable")
+        .class_if(st.repeated_keys > 0, "repeated-key")
+        .class_if(st.vars > 0, "variables")
+        .class_if(st.omitted_var_arg_default > 0, "omitted-variable-with-argument-default")
+}
+
+pub fn run_one(schema: &ZSchema, sch: &Sch, s: &mut dyn Src, tcfg: &TypedCfg, wcfg: &WorldCfg, quirks: Quirks, known: &[&str]) -> Case {
+    let world = gen_world(sch, s, wcfg);
+    let mut td = gen_typed_doc(sch, s, tcfg);
+    let text = print_plain(&mut td.doc);
+    let rendered = format!("world: {}\nquery: {}\nvariables: {}", world.show(), text, vars_json(&td.vars));
+    let want = match execute(sch, &td.doc, td.op_name.as_deref(), &td.vars, &world, Quirks::default()) {
+        Ok(w) => w,
+        Err(e) => return Case::fail(rendered, format!("HARNESS: reference executor rejects a generated request: {:?}", e)),
+    };
+    let rt = Rt::new(world.clone());
+    let resp = vcore::det::block_on(schema.execute(request(&text, &td.vars, td.op_name.as_deref()).data(rt)));
+    let non_finite = world.nodes.iter().any(|n| n.fields.values().any(|v| matches!(v, WVal::Float(f) if !f.is_finite())));
+    let c = match compare(&want, &resp) {
+        Ok(()) => Case::pass(rendered),
+        Err(e) => {
+            let mut attributed = None;
+            if quirks != Quirks::default() {
+                if let Ok(w2) = execute(sch, &td.doc, td.op_name.as_deref(), &td.vars, &world, quirks) {
+                    if compare(&w2, &resp).is_ok() {
+                        attributed = Some(known.iter().map(|k| k.to_string()).collect::<Vec<_>>());
+                    }
+                }
+            }
+            match attributed {
+                Some(ids) => Case::known(rendered, ids),
+                None => Case::fail(rendered, format!("{}; errors reported: {:?}", e, resp.errors.iter().map(|e| format!("{} @{:?}", e.message, e.path)).collect::<Vec<_>>())),
+            }
+        }
+    };
+    classify(c, &td.stats).class_if(non_finite, "non-finite-float-in-world")
+}
+
+pub fn run(ctx: &mut Ctx) {
+    ctx.rule = "static derive-built schema Z (objects, two interfaces, two unions, enum with renamed item, every nullability/list wrapper), data worlds valid for it, \
+                type-directed valid documents with variables; response compared with the reference executor (data exactly, errors by path+location). Non-trivial = a fragment \
+                with a type condition, a repeated response key, or a variable-driven @skip/@include; distinct by rendered (world, query, variables)".into();
+    ctx.assume("the Sch mirror of Z is read back from Z's own SDL by the reference parser (SDL fidelity is C17's subject); documents are valid by construction");
+    let schema = build_z(|b| b);
+    let sch = z_sch(&schema);
+    let n = ctx.tier.pick(40_000, 1_500_000);
+    let mut cfg = crate::c02::typed_cfg(ctx, "C01");
+    cfg.ops = vec![vgql::ast::OpKind::Query, vgql::ast::OpKind::Query, vgql::ast::OpKind::Mutation];
+    let f3 = ctx.open("C01-F3");
+    let wcfg = WorldCfg { non_finite_floats: !f3, ..WorldCfg::default() };
+    if f3 {
+        ctx.excluded("C01-F3");
+    }
+    ctx.stream("static", n, 700, |s| run_one(&schema, &sch, s, &cfg, &wcfg, Quirks::default(), &[]));
+    if f3 {
+        let wp = WorldCfg { non_finite_floats: true, ..WorldCfg::default() };
+        let q = Quirks { non_finite_float_is_null: true, ..Quirks::default() };
+        ctx.stream("probe-non-finite-float", n / 10, 700, |s| run_one(&schema, &sch, s, &cfg, &wp, q, &["C01-F3"]));
+    }
+    ctx.floor("interface-condition", 50);
+    ctx.floor("union-condition-in-object", 20);
+    ctx.floor("repeated-key", 50);
 }
